@@ -173,6 +173,28 @@ def _enum_local_from_string(fn: ast.FunctionDef, local: str, param: str, enum: s
     return walk(fn.body, []) and members >= 2
 
 
+LOSSY_CALLS = ("round", "int", "floor", "ceil", "math.floor", "math.ceil", "np.round", "np.around", "numpy.round", "format", "str")
+
+
+def _written_value(res, prog, e_, val, key, label, fi_, qual):
+    """evaluate a value written into the input file; a lossy transformation (round, int, ...) is a round-trip violation, a value
+    that is not understood fails closed unless it is structural (lists / strings / names of enum members)
+    -> Rat or None (skip)"""
+    for n_ in ast.walk(val):
+        if isinstance(n_, ast.Call) and attr_chain(n_.func) in LOSSY_CALLS:
+            res.ob("K5", f"[{label}] '{key}' is written without loss", False, prog.loc(fi_, val))
+            res.violation("K5", f"{label}|{key}|lossy|{attr_chain(n_.func)}", prog.loc(fi_, val), qual,
+                          f"[{label}] '{key}' is written as {ast.unparse(val)[:80]}: {attr_chain(n_.func)}() loses information, so reading the file back does not restore the configured value")
+            return None
+    w_ = e_.eval(val, State())
+    if isinstance(w_, Rat):
+        return w_
+    if isinstance(val, (ast.List, ast.Tuple, ast.Dict, ast.Constant, ast.JoinedStr)) or (isinstance(val, ast.Attribute) and val.attr in ("name", "value")) \
+            or isinstance(val, ast.Attribute) or isinstance(val, ast.Name) or isinstance(val, ast.Subscript):
+        return None  # plain references (lists of coordinates, enum names, nested tables): covered by K1-K4
+    raise AnalysisError(f"{qual}: value written for '{key}' not understood: {ast.unparse(val)[:80]}")
+
+
 def schema_props(prog: Program, name: str):
     s = prog.schemas.get(name)
     if s is None:
@@ -642,8 +664,8 @@ def _check_roundtrip(prog: Program, res: Result, sec_tabs):
                 continue  # max_height / min_height are added by the manager from the simulation parameters
             if key == "method":
                 continue
-            w = e.eval(val, State())
-            if not isinstance(w, Rat):
+            w = _written_value(res, prog, e, val, key, f"geometric_constraints:{mem}", ti, ti.qualname)
+            if w is None:
                 continue
             # which setter parameter does the loader feed from this key?
             params = [p for p, (sec, k) in lb.items() if k == key]
@@ -705,8 +727,8 @@ def _check_roundtrip(prog: Program, res: Result, sec_tabs):
         for key, (val, cond, f) in sorted(tab.items()):
             if f is not ti:
                 continue
-            w = e.eval(val, State())
-            if not isinstance(w, Rat):
+            w = _written_value(res, prog, e, val, key, sec, ti, ti.qualname)
+            if w is None:
                 continue
             params = [p for p, (s_, k) in lb.items() if k == key]
             if len(params) != 1:
@@ -736,8 +758,8 @@ def _check_roundtrip(prog: Program, res: Result, sec_tabs):
         for key, (val, cond, f) in sorted(tab.items()):
             if key == "arrangement":
                 continue
-            w = ew.eval(val, State())
-            if not isinstance(w, Rat):
+            w = _written_value(res, prog, ew, val, key, f"pipe:{mem}", wfi, WRITER)
+            if w is None:
                 continue
             params = [p for p, (s_, k) in lb.items() if k == key]
             if len(params) != 1:
@@ -1036,6 +1058,8 @@ def _check_enums(prog: Program, res: Result, wfi, lfi):
 
 
 VARIANTS = [
+    Variant("rowwise rotations rounded to two decimals when written (seeded C17_c)", "break",
+            [(GEO, "            'max_rotation': self.max_rotation * RAD_TO_DEG,", "            'max_rotation': round(self.max_rotation * RAD_TO_DEG, 2),")], "K5"),
     Variant("continue_if_design_unmet written only when max_boreholes is set (seeded C17)", "break",
             [(MGR, """        if self._simulation_parameters.continue_if_design_unmet is True:
             d_des['continue_if_design_unmet'] = self._simulation_parameters.continue_if_design_unmet""", """            if self._simulation_parameters.continue_if_design_unmet is True:
